@@ -13,7 +13,7 @@ TRUST_PATTERNS = [
     r'external_fn_specification', r'#\[verifier::external', r'exec_allows_no_decreases_clause',
     r'external_type_specification', r'verifier::trusted', r'#\[verifier::axiom', r'\baxiom\b',
     r'verifier::opaque_outside', r'uninterp\b', r'no_decreases', r'assume_termination',
-    r'#\[verifier::loop_isolation', r'accept_recursive_types', r'reject_recursive_types',
+    r'accept_recursive_types', r'reject_recursive_types',
 ]
 
 CANARY = '''
